@@ -39,6 +39,7 @@ type Scenario struct {
 	KDDHex       string   `json:"kdd_hex,omitempty"`        // ECDSA key derivation delta
 	PartyKeys    []string `json:"party_keys,omitempty"`     // decimal party id keys (keygen / new committee)
 	ExpectRefuse bool     `json:"expect_refuse,omitempty"`  // the scenario must be refused by Start() before anything is sent
+	MayRefuse    bool     `json:"may_refuse,omitempty"`     // inadmissible input (e.g. share ids colliding modulo the order): errors are fine, a completed run must still satisfy the oracle
 	NonceSum     int64    `json:"nonce_sum,omitempty"`      // ECDSA signing: force the signers' nonce shares k_i to sum to this small value
 	SilentNode   int      `json:"silent_node,omitempty"`    // party that goes silent (crash) ...
 	SilentAfter  int      `json:"silent_after,omitempty"`   // ... after this many scheduler steps
